@@ -95,6 +95,8 @@ def node_lane(st, rng, nhist):
             _os.remove(kept)
             st.c["node_lane_restarts"] = st.c.get("node_lane_restarts", 0) + 1
             for bid, cls in refused:
+                if bid in h.world.chain.blocks:
+                    continue            # (a child that first arrived before its parent and was accepted when it came again)
                 if bid in rebuilt.block_by_hash:
                     st.v("refused-block-in-chain-state-after-restart", "class %s: a block refused on the relay path is part of the chain "
                          "state rebuilt from the block store" % cls, {"lane": "node", "class": cls})
